@@ -1615,6 +1615,28 @@ class EdgeDetector(SeqKind):
 
 
 @register
+class AutoResetSM(SeqKind):
+    """py4hw.logic.clock.AutoReset: the power-up reset pulse - high after the first two edges, low from the third on"""
+    name = 'AutoResetSM'
+
+    def plan(self, rng, pool):
+        return {}, [], [1]
+
+    def build(self, parent, nm, ins, outs, p):
+        from py4hw.logic.clock import AutoReset
+        return AutoReset(parent, nm, outs[0])
+
+    def init(self, p, iw, ow):
+        return 0
+
+    def outs(self, p, st, iv, iw, ow):
+        return [1 if 1 <= st <= 2 else 0]
+
+    def nxt(self, p, st, iv, iw, ow):
+        return min(st + 1, 3)
+
+
+@register
 class ClockDivider(SeqKind):
     name = 'ClockDivider'
 
